@@ -396,13 +396,7 @@ func (p *parser) parseSwitchStatement() ast.Statement {
 		p.scope.inSwitch = inSwitch
 	}()
 
-	for index := 0; p.token != token.EOF; index++ {
-		if p.token == token.RIGHT_BRACE {
-			node.RightBrace = p.idx
-			p.next()
-			break
-		}
-
+	for index := 0; p.token != token.EOF && p.token != token.RIGHT_BRACE; index++ {
 		clause := p.parseCaseStatement()
 		if clause.Test == nil {
 			if node.Default != -1 {
@@ -412,6 +406,7 @@ func (p *parser) parseSwitchStatement() ast.Statement {
 		}
 		node.Body = append(node.Body, clause)
 	}
+	node.RightBrace = p.expect(token.RIGHT_BRACE)
 
 	if p.mode&StoreComments != 0 {
 		p.comments.CommentMap.AddComments(node, comments, ast.LEADING)
